@@ -19,6 +19,8 @@ def check(model, R, tier):
     RC.check_geom(model, R, 'C06', funcs, declare=False)
     check_layer_geom(model, R)
     check_pad(model, R)
+    from sa import rules_kernel as _K
+    _K.check_layer_stateless(model, R, 'C06')
     from sa.rules_defn import check_defn
     check_defn(model, R, 'C06', ['sigmoid', 'softmax', 'log_softmax', 'relu', 'selu', 'mse_loss', 'bce_loss', 'bce_with_logits_loss', 'cross_entropy_loss'],
                'per-element values of activations and losses')
